@@ -123,7 +123,7 @@ impl Stats {
     }
 }
 
-pub trait Prop: Sync {
+pub trait Prop: Sync + Send {
     fn id(&self) -> &'static str;
     fn level(&self) -> &'static str;
     fn rule(&self) -> String;
@@ -189,15 +189,19 @@ impl KnownFindings {
 /// violation class persists.
 pub fn minimise(prop: &dyn Prop, mut f: Failure, budget: usize) -> Failure {
     let mut spent = 0usize;
+    // wall-clock bound: violating runs of a broken system can be slow
+    let t0 = Instant::now();
+    let budget = if false { 0 } else { budget };
+    let over = |spent: usize| spent >= budget || t0.elapsed().as_secs() > 45;
     let class = f.class.clone();
     // 1. structural shrinking
     'outer: loop {
-        if spent >= budget {
+        if over(spent) {
             break;
         }
         for cand in prop.shrink(&f.case) {
             spent += 1;
-            if spent > budget {
+            if over(spent) {
                 break 'outer;
             }
             if let Some(f2) = prop.rerun(&cand, &f.cfg, &f.decisions)
@@ -211,10 +215,10 @@ pub fn minimise(prop: &dyn Prop, mut f: Failure, budget: usize) -> Failure {
     }
     // 2. decision log: truncate, then zero chunks
     let mut chunk = f.decisions.len().max(1);
-    while chunk >= 1 && spent < budget {
+    while chunk >= 1 && !over(spent) {
         let mut i = 0;
         let mut progress = false;
-        while i < f.decisions.len() && spent < budget {
+        while i < f.decisions.len() && !over(spent) {
             let end = (i + chunk).min(f.decisions.len());
             if f.decisions[i..end]
                 .iter()
@@ -288,10 +292,42 @@ pub fn run_check(prop: &dyn Prop, opt: &CheckOptions) -> CheckResult {
     let failures: Mutex<Vec<(u64, Failure)>> = Mutex::new(Vec::new());
     let merged: Mutex<Stats> = Mutex::new(Stats::default());
     let workers = opt.workers.max(1);
+    // Watchdog: a case that runs longer than the limit is a hang of the system
+    // under test (or of the harness); it cannot be interrupted, so the process
+    // reports it and exits.
+    let running: Vec<Mutex<Option<(u64, Instant)>>> = (0..workers).map(|_| Mutex::new(None)).collect();
+    let finished = AtomicBool::new(false);
+    let next_slot = AtomicU64::new(0);
+    let case_limit = std::time::Duration::from_secs(
+        std::env::var("VERIF_CASE_TIMEOUT").ok().and_then(|s| s.parse().ok()).unwrap_or(120),
+    );
     let deadline = opt.max_seconds.map(|s| t0 + std::time::Duration::from_secs(s));
     std::thread::scope(|scope| {
+        scope.spawn(|| {
+            while !finished.load(Ordering::Relaxed) {
+                std::thread::sleep(std::time::Duration::from_millis(200));
+                for slot in &running {
+                    let cur = *slot.lock().unwrap();
+                    if let Some((index, start)) = cur
+                        && start.elapsed() > case_limit
+                    {
+                        let path = format!("{}/{}-{}-{}-hang.json", opt.replay_dir, prop.id(), opt.seed, index);
+                        std::fs::create_dir_all(&opt.replay_dir).ok();
+                        let rf = json!({"property": prop.id(), "seed": opt.seed, "index": index,
+                            "tier": opt.tier.name(), "hang": true,
+                            "note": "case did not finish within the per-case wall-clock limit; replay re-runs case <index> of seed <seed>"});
+                        std::fs::write(&path, serde_json::to_string_pretty(&rf).unwrap()).ok();
+                        println!("violation class=hang key=hang detail=case {index} did not finish within {:?}", case_limit);
+                        println!("VIOLATION property={} replay={}", prop.id(), path);
+                        std::process::exit(1);
+                    }
+                }
+            }
+        });
+        let mut handles = Vec::new();
         for _ in 0..workers {
-            scope.spawn(|| {
+            handles.push(scope.spawn(|| {
+                let my_slot = next_slot.fetch_add(1, Ordering::Relaxed) as usize;
                 let mut stats = Stats::default();
                 loop {
                     if stop.load(Ordering::Relaxed) {
@@ -307,7 +343,10 @@ pub fn run_check(prop: &dyn Prop, opt: &CheckOptions) -> CheckResult {
                         break;
                     }
                     stats.cases += 1;
-                    if let Some(f) = prop.run_case(opt.seed, i, opt.tier, &mut stats) {
+                    *running[my_slot].lock().unwrap() = Some((i, Instant::now()));
+                    let result = prop.run_case(opt.seed, i, opt.tier, &mut stats);
+                    *running[my_slot].lock().unwrap() = None;
+                    if let Some(f) = result {
                         let mut fs = failures.lock().unwrap();
                         fs.push((i, f));
                         // keep going a little so that distinct findings are
@@ -318,8 +357,12 @@ pub fn run_check(prop: &dyn Prop, opt: &CheckOptions) -> CheckResult {
                     }
                 }
                 merged.lock().unwrap().merge(stats);
-            });
+            }));
         }
+        for h in handles {
+            h.join().ok();
+        }
+        finished.store(true, Ordering::Relaxed);
     });
     let mut stats = merged.into_inner().unwrap();
     let mut failures = failures.into_inner().unwrap();
